@@ -40,6 +40,8 @@ UrlP(via, strict, ch, isres, p, ps) == [op |-> "url", key |-> via, strict |-> st
 Pf(p, mw) == [p |-> p, mws |-> mw]
 Misc(ch, isres) == [op |-> "misc", chain |-> ch, res |-> isres, pat |-> "", methods |-> <<>>, mws |-> <<>>]
 MkF(fid, ch, isres) == [op |-> "facade", fid |-> fid, chain |-> ch, res |-> isres, pat |-> "", methods |-> <<>>, mws |-> <<>>]
+\* an object created FROM another stored object (parent fid): only the last chain element is new
+MkFrom(fid, parent, ch, isres) == MkF(fid, ch, isres) @@ [parent |-> parent]
 HFo(fid, ch, isres, p, ms, mw) == HF(ch, isres, p, ms, mw) @@ [fid |-> fid]
 NoUrls == <<>>
 NoMOps == {}
@@ -47,7 +49,8 @@ TH(method, path, hdr, body, flag) == [op |-> "tracehelper", method |-> method, p
 \* n = -1: the body's length is unknown to the server (chunked / streamed request)
 THU(method, path, hdr, body, flag) == [op |-> "tracehelper", method |-> method, path |-> path, hdr |-> hdr, body |-> body, flag |-> flag, n |-> -1]
 StdTH == {TH(m, p, h, b, f) : m \in {"TRACE", "GET"}, p \in {"/", "/a<b>&'\"c"}, h \in {<<>>, [Cookie |-> "a<b"], [Accept |-> "x&y'z\"", Cookie |-> "k"]},
-                              b \in {"", "<p>&amp;'\"</p>"}, f \in BOOLEAN}
+                              b \in {"", "<p>&amp;'\"</p>", "it's \"q\""}, f \in BOOLEAN}
+         \cup {TH("TRACE", "/q", [Etag |-> "\"v1\""], "", FALSE)}
          \cup {THU("TRACE", "/", <<>>, b, f) : b \in {"x<y", "<p>&amp;'\"</p>"}, f \in BOOLEAN}
 \* probes: W = simple-valued witness of a pattern, A = any other path
 W(p, wps) == [path |-> Subst(Parse(p).atoms, wps), wit |-> p, wps |-> wps]
